@@ -2,6 +2,7 @@ package c14
 
 import (
 	"fmt"
+	"net"
 	"strings"
 	"sync"
 	"testing"
@@ -45,6 +46,7 @@ type Case struct {
 	Conc         []Req // concurrent phase (2-4 requests), empty = purely sequential case
 	Picks        []int
 	Post         []Req // sequential suffix
+	Conn         bool  `json:",omitempty"` // the sequential requests re-use one RequestCtx (one keep-alive connection): request and response buffers are recycled
 }
 
 type origin struct {
@@ -75,6 +77,7 @@ func respSig(r *fasthttp.RequestCtx, withHdr bool) string {
 var cacheable = map[int]bool{200: true, 203: true, 204: true, 206: true, 300: true, 301: true, 404: true, 405: true, 410: true, 414: true, 418: true, 501: true}
 
 type world struct {
+	conn   *fasthttp.RequestCtx
 	c      Case
 	app    *fiber.App
 	st     *vk.Storage
@@ -171,6 +174,28 @@ func (w *world) do(r Req) *fasthttp.RequestCtx {
 	return vk.Do(w.app, r.Method, w.uri(r), hdr...)
 }
 
+// doSeq is do for the sequential phases: with Conn the same RequestCtx serves every request, as on one keep-alive
+// connection, so whatever still aliases the previous request's or response's buffers changes under its owner.
+func (w *world) doSeq(r Req) *fasthttp.RequestCtx {
+	if !w.c.Conn {
+		return w.do(r)
+	}
+	if w.conn == nil {
+		w.conn = &fasthttp.RequestCtx{}
+	}
+	ctx := w.conn
+	var req fasthttp.Request
+	req.Header.SetMethod(r.Method)
+	req.SetRequestURI(w.uri(r))
+	if r.CC != "" {
+		req.Header.Set("Cache-Control", r.CC)
+	}
+	ctx.Response.Reset() // keeps the body buffer, as the server does between two requests of a connection
+	ctx.Init(&req, &net.TCPAddr{IP: net.IPv4(10, 0, 0, 9), Port: 1234}, nil)
+	w.app.Handler()(ctx)
+	return ctx
+}
+
 func (w *world) execCount(r Req) int {
 	w.mu.Lock()
 	defer w.mu.Unlock()
@@ -223,7 +248,7 @@ func (m *model) seqStep(w *world, r Req, i int, phase string) string {
 				ch <- res{nil}
 			}
 		}()
-		ch <- res{w.do(r)}
+		ch <- res{w.doSeq(r)}
 	}()
 	var resp *fasthttp.RequestCtx
 	select {
@@ -447,7 +472,7 @@ func genReq(t *rapid.T, c Case) Req {
 func genCase(t *rapid.T, conc bool) Case {
 	c := Case{Store: rapid.SampledFrom([]string{"memory", "vk", "vk-retain"}).Draw(t, "store"), MaxBytes: rapid.SampledFrom([]uint{0, 50, 100, 200, 400}).Draw(t, "maxbytes"),
 		StoreHeaders: rapid.Bool().Draw(t, "storehdr"), CacheControl: rapid.Bool().Draw(t, "cachecontrol"), CustomKey: rapid.Bool().Draw(t, "customkey"),
-		UseNext: rapid.IntRange(0, 4).Draw(t, "usenext") == 0}
+		UseNext: rapid.IntRange(0, 4).Draw(t, "usenext") == 0, Conn: rapid.IntRange(0, 2).Draw(t, "conn") == 0}
 	switch rapid.IntRange(0, 3).Draw(t, "methods") {
 	case 0:
 		c.Methods = []string{"GET"}
